@@ -599,7 +599,7 @@ class C07(Property):
                                                                           0.85, at_least=2))}
 
     def gen_universe(self, rng, cfg):
-        ids = gen.IdAlloc(rng, 1, 300)
+        ids = gen.IdAlloc(rng, 1, 300, zero=0.15)
         lattice = rng.chance(0.2)
         net = gen.gen_network(rng, rows=rng.randint(1, 3), cols=rng.randint(1, 2), ids=ids, signs=False, lights=False,
                               intersections=False, stop_lines=False, overlap=rng.chance(0.5), types=False, far=0.3,
